@@ -19,7 +19,8 @@ Mutation kinds (``KINDS``):
 
   names       dangling_input dangling_output dup_name empty_name io_alias init_like shadow_outer
               redeclare_output shadow_scope (consistent: definition and all references, often with a
-              sharding annotation on the shadowed operand)
+              sharding annotation on the shadowed operand) autoname (values/nodes consistently renamed to the
+              library's own val_<n> / node_<op>_<n> scheme) unname (a definition loses its name)
   structure   shuffle_nodes cyclic_nodes self_loop deep_nesting recursive_function dup_function
               dup_attr dup_keyed copy_across outer_output drop_producer late_reject
   types/enums missing_type unknown_enum attr_type_mismatch unsupported
@@ -77,6 +78,28 @@ def walk(root: Message) -> Iterator[Message]:
             else:
                 children.append(value)
         stack.extend(reversed(children))
+
+
+def nesting_depth(root: Message) -> int:
+    """Largest number of message levels below ``root`` (iterative, bounded like ``walk``)."""
+    best = 0
+    stack = [(root, 0)]
+    seen = 0
+    while stack:
+        msg, d = stack.pop()
+        seen += 1
+        if d > best:
+            best = d
+        if seen > _MAX_WALK:
+            break
+        for fd, value in msg.ListFields():
+            if fd.message_type is None:
+                continue
+            if _rep(fd):
+                stack.extend((v, d + 1) for v in value)
+            else:
+                stack.append((value, d + 1))
+    return best
 
 
 def of_type(root: Message, name: str) -> list:
@@ -507,6 +530,179 @@ def shadowed_sharding_specs(root) -> int:
     return total
 
 
+# ---- names of the library's own naming scheme; definitions that lose their name ---------------------------
+
+
+def _rename_in_container(c, old: str, new: str) -> int:
+    """``_rename_in_scope`` for graphs AND functions: the definition of ``old`` in container ``c`` (input,
+    initializer, node output) and every by-name reference that resolves to it, captures of nested subgraphs
+    included, become ``new``."""
+    renamed = 0
+    stack = [c]
+    visited = 0
+    while stack and visited < 2000:
+        s = stack.pop()
+        visited += 1
+        own = s is c
+        if not own and old in _names_defined(s):
+            continue
+        graph = _is_graph(s)
+        if own:
+            if graph:
+                for v in s.input:
+                    if v.name == old:
+                        v.name = new
+                        renamed += 1
+                for t in s.initializer:
+                    if t.name == old:
+                        t.name = new
+                        renamed += 1
+            else:
+                for i, x in enumerate(s.input):
+                    if x == old:
+                        s.input[i] = new
+                        renamed += 1
+        if graph:
+            for v in list(s.output) + list(s.value_info):
+                if v.name == old:
+                    v.name = new
+                    renamed += 1
+            for q in s.quantization_annotation:
+                if q.tensor_name == old:
+                    q.tensor_name = new
+                    renamed += 1
+                for e in q.quant_parameter_tensor_names:
+                    if e.value == old:
+                        e.value = new
+                        renamed += 1
+        else:
+            for i, x in enumerate(s.output):
+                if x == old:
+                    s.output[i] = new
+                    renamed += 1
+            for v in getattr(s, "value_info", ()):
+                if v.name == old:
+                    v.name = new
+                    renamed += 1
+        for n in s.node:
+            for i, x in enumerate(n.input):
+                if x == old:
+                    n.input[i] = new
+                    renamed += 1
+            if own:
+                for i, x in enumerate(n.output):
+                    if x == old:
+                        n.output[i] = new
+                        renamed += 1
+            if _HAS_NODE_DEVICE_CONFIG:
+                for dc in n.device_configurations:
+                    for sp in dc.sharding_spec:
+                        if sp.tensor_name == old:
+                            sp.tensor_name = new
+                            renamed += 1
+            stack.extend(_node_subgraphs(n))
+    return renamed
+
+
+_AUTONAME_ROLES = (
+    ("node-output",), ("node-output",), ("node-output",), ("node-output", "initializer"),
+    ("input", "initializer", "node-output"), ("input", "node-output"), ("input",), ("initializer",),
+)
+
+
+def _autoname_container(c, rng) -> int:
+    """Give definitions of container ``c`` names of the library's own scheme (``val_<n>`` for values, as the IR's
+    name authority generates them; ``node_<op_type>_<n>`` for nodes), consistently.  Returns the number of values
+    renamed."""
+    graph = _is_graph(c)
+    roles = {
+        "input": [v.name for v in c.input] if graph else list(c.input),
+        "initializer": [t.name for t in c.initializer] if graph else [],
+        "node-output": [o for n in c.node for o in n.output],
+    }
+    pick = rng.choice(_AUTONAME_ROLES)
+    olds = list(dict.fromkeys(x for r in pick for x in roles[r] if x))
+    if len(olds) > 48:
+        keep = set(rng.sample(range(len(olds)), 48))
+        olds = [x for i, x in enumerate(olds) if i in keep]
+    r = rng.random()
+    if r < 0.55:
+        numbers = list(range(len(olds)))  # the order in which a name authority starting at 0 hands them out
+    elif r < 0.8:
+        numbers = list(range(len(olds) + 2))
+        rng.shuffle(numbers)
+    else:
+        start = rng.choice((1, 2, 10))
+        numbers = list(range(start, start + len(olds)))
+    taken = set(_names_defined(c)) - set(olds)
+    pairs = [(o, f"val_{k}") for o, k in zip(olds, numbers) if f"val_{k}" not in taken]
+    for i, (o, _new) in enumerate(pairs):
+        _rename_in_container(c, o, f"__vf_tmp_{i}__")
+    for i, (_o, new) in enumerate(pairs):
+        _rename_in_container(c, f"__vf_tmp_{i}__", new)
+    r = rng.random()
+    if r < 0.5:
+        for k, n in enumerate(c.node):
+            n.name = f"node_{n.op_type}_{k}"
+    elif r < 0.65:
+        for n in c.node:
+            n.ClearField("name")
+    return len(pairs)
+
+
+def m_autoname(root, rng):
+    """The proto uses the names the library itself would generate (as every model it produced does): in one
+    container, or in all of them, values are renamed consistently to ``val_<n>`` and nodes to
+    ``node_<op_type>_<n>``.  The proto stays as valid as it was; what changes is that any name the library
+    invents while deserializing now meets a declared one."""
+    cs = containers(root)
+    if not cs:
+        return None
+    rng.shuffle(cs)
+    if rng.random() < 0.5:
+        total = sum(_autoname_container(c, rng) for c in cs[:40])
+        return f"{total} value(s) in {min(len(cs), 40)} container(s) renamed to library-style val_<n> names" if total else None
+    for c in cs[:20]:
+        n = _autoname_container(c, rng)
+        if n:
+            return f"{n} value(s) of one {c.DESCRIPTOR.name} renamed to library-style val_<n> names"
+    return None
+
+
+def m_unname(root, rng):
+    """A definition loses its name (empty string or field cleared): a graph/function input, an initializer, a
+    node output, a node, a graph.  References to it are left alone."""
+    cats: dict[str, list] = {}
+    for m in walk(root):
+        t = m.DESCRIPTOR.name
+        if t == "GraphProto":
+            cats.setdefault("graph input", []).extend(("name", e) for e in m.input)
+            cats.setdefault("initializer", []).extend(("name", e) for e in m.initializer)
+            cats.setdefault("graph", []).append(("name", m))
+        elif t == "FunctionProto":
+            cats.setdefault("function input", []).extend(("idx", m.input, i) for i in range(len(m.input)))
+        elif t == "NodeProto":
+            cats.setdefault("node output", []).extend(("idx", m.output, i) for i in range(len(m.output)))
+            cats.setdefault("node", []).append(("name", m))
+    cats = {k: v for k, v in cats.items() if v}
+    if not cats:
+        if root.DESCRIPTOR.name in ("ValueInfoProto", "TensorProto") and root.name:
+            root.ClearField("name")
+            return f"{root.DESCRIPTOR.name} lost its name"
+        return None
+    names = sorted(cats)
+    weights = [3.0 if k in ("graph input", "function input", "node output", "initializer") else 1.0 for k in names]
+    cat = rng.choices(names, weights)[0]
+    s = rng.choice(cats[cat])
+    if s[0] == "idx":
+        s[1][s[2]] = ""
+    elif rng.random() < 0.5:
+        s[1].name = ""
+    else:
+        s[1].ClearField("name")
+    return f"a {cat} lost its name"
+
+
 def m_redeclare_output(root, rng):
     cs = [c for c in containers(root) if _nodes_with_output(c)]
     if not cs:
@@ -588,21 +784,64 @@ def _host_node(root, rng):
     return None
 
 
+# nesting depths of a type: small ones stay below protobuf's parse recursion limit (a TypeProto level costs two
+# message levels: 47 levels fit into a model that arrives as bytes), the large ones exist only in memory
+_TYPE_DEPTHS = (3, 8, 16, 22, 26, 30, 36, 40, 47, 120, 340, 560)
+_TYPE_PATTERNS = ("mixed", "mixed", "seq", "opt", "alt", "random")
+
+
+def _wrap_type(tp, depth: int, pattern: str, rng) -> None:
+    """Wrap the type ``tp`` (in place) into ``depth`` levels of sequence/optional (rarely one map level)."""
+    inner = onnx.TypeProto()
+    inner.CopyFrom(tp)
+    tp.Clear()
+    cur = tp
+    map_at = rng.randrange(depth) if rng.random() < 0.06 else -1
+    for i in range(depth):
+        if i == map_at:
+            cur.map_type.key_type = TP.INT64
+            cur = cur.map_type.value_type
+            continue
+        if pattern == "seq":
+            opt = False
+        elif pattern == "opt":
+            opt = True
+        elif pattern == "alt":
+            opt = i % 2 == 0
+        elif pattern == "random":
+            opt = rng.random() < 0.5
+        else:
+            opt = not (i + depth) % 3
+        cur = (cur.optional_type if opt else cur.sequence_type).elem_type
+    cur.CopyFrom(inner)
+
+
 def m_deep_nesting(root, rng):
     r = rng.random()
-    if r < 0.35:
+    if r < 0.45:
         leaves = of_type(root, "TypeProto")
+        where = ""
+        if not leaves or rng.random() < 0.15:
+            # no type anywhere (or, sometimes, anyway): a type-valued attribute on a node carries the deep type
+            nodes = of_type(root, "NodeProto")
+            if nodes:
+                a = rng.choice(nodes).attribute.add()
+                a.name = _fresh(rng, "ty")
+                if rng.random() < 0.5:
+                    a.type = AP.TYPE_PROTO
+                    t = a.tp
+                else:
+                    a.type = AP.TYPE_PROTOS
+                    t = a.type_protos.add()
+                t.tensor_type.elem_type = TP.FLOAT
+                leaves = [t]
+                where = " (new type attribute)"
         if leaves:
             tp = rng.choice(leaves)
-            depth = rng.choice((4, 30, 120, 340, 560))
-            inner = onnx.TypeProto()
-            inner.CopyFrom(tp)
-            tp.Clear()
-            cur = tp
-            for i in range(depth):
-                cur = (cur.sequence_type if (i + depth) % 3 else cur.optional_type).elem_type
-            cur.CopyFrom(inner)
-            return f"type wrapped {depth} levels deep"
+            depth = rng.choice(_TYPE_DEPTHS)
+            pattern = rng.choice(_TYPE_PATTERNS)
+            _wrap_type(tp, depth, pattern, rng)
+            return f"type wrapped {depth} levels deep ({pattern}){where}"
     host = _host_node(root, rng)
     if host is None:
         if root.DESCRIPTOR.name == "AttributeProto":
@@ -614,7 +853,8 @@ def m_deep_nesting(root, rng):
     else:
         a = host.attribute.add()
         a.name = _fresh(rng, "body")
-    depth = rng.choice((3, 12, 40, 90, 150, 300))
+    # 24 graph levels are the most that still parse from bytes (a graph level costs four message levels)
+    depth = rng.choice((3, 12, 23, 40, 90, 150, 300))
     many = rng.random() < 0.3
     outer_name = host.input[0] if host is not None and host.input else "outer_x"
     if many:
@@ -623,13 +863,18 @@ def m_deep_nesting(root, rng):
     else:
         a.type = AP.GRAPH
         cur = a.g
+    typed = rng.random() < 0.3  # every level declares its output with a (small) nested type
     for level in range(depth):
         cur.name = f"deep{level}"
         n = cur.node.add()
         n.op_type = "If"
         n.input.append(outer_name)
         n.output.append(f"d{level}")
-        cur.output.add().name = f"d{level}"
+        vi = cur.output.add()
+        vi.name = f"d{level}"
+        if typed:
+            vi.type.tensor_type.elem_type = TP.FLOAT
+            _wrap_type(vi.type, 1 + level % 3, "alt", rng)
         b = n.attribute.add()
         b.name = "then_branch"
         b.type = AP.GRAPH
@@ -1463,7 +1708,7 @@ def m_byte_append_field(root, rng):
 MUTATIONS: dict[str, Callable] = {
     "dangling_input": m_dangling_input, "dangling_output": m_dangling_output, "dup_name": m_dup_name,
     "empty_name": m_empty_name, "io_alias": m_io_alias, "init_like": m_init_like, "shadow_outer": m_shadow_outer,
-    "redeclare_output": m_redeclare_output, "shadow_scope": m_shadow_scope,
+    "redeclare_output": m_redeclare_output, "shadow_scope": m_shadow_scope, "autoname": m_autoname, "unname": m_unname,
     "shuffle_nodes": m_shuffle_nodes, "cyclic_nodes": m_cyclic_nodes, "self_loop": m_self_loop,
     "deep_nesting": m_deep_nesting, "recursive_function": m_recursive_function, "dup_function": m_dup_function,
     "dup_attr": m_dup_attr, "dup_keyed": m_dup_keyed, "copy_across": m_copy_across,
@@ -1511,7 +1756,8 @@ def default_weights(root: Message) -> dict[str, float]:
         w[k] = 1.5
     for k in BYTE_KINDS:
         w[k] = 0.8
-    w["deep_nesting"] = 0.6
+    w["deep_nesting"] = 0.8
+    w["unname"] = 2.0
     w["ir_version"] = 0.4
     return w
 
